@@ -66,6 +66,8 @@ def floors(acc, tier):
     for mr in ("mlt", "meq", "mgt"):
         if not any(("|" + mr + "|") in k for k in acc.classes):
             msgs.append("minimum_receive relation %s to the same-state quote never seen" % mr)
+    if not any("|repeat_hop|" in k and ("|meq|" in k or "|mlt|" in k) for k in acc.classes):
+        msgs.append("no route repeating a hop with minimum_receive at or just below the router's (stale) quote")
     if not any("|cycle" in k and "|ok|" in k for k in acc.classes):
         msgs.append("no successful cycle route (final asset = input asset)")
     return msgs
